@@ -160,13 +160,15 @@ def check_track(ctx, tr, tl, w, bpm, name=None, instrument=None, metas=True, fir
             def placed(e, k, f):
                 lo = 0 if k == 0 else tl["bars"][k * (len(tl["bars"]) // max(1, len(tl["first_notes"]))) - 1][1] if tl["bars"] else 0
                 return lo <= e["tick"] <= f[0]
-            def first_channels(f):
+            def first_channels(e, f):
                 # "the first note": the lowest note of the first sounding container (the container's first note) or, when a
-                # writer emits a chord in another order, the note whose note-on comes first in the byte stream
-                on = next((x for x in tr if x["kind"] == "on" and x["tick"] >= f[0]), None)
+                # writer emits a chord in another order, the note whose note-on comes first in the byte stream after the
+                # announcement (not before it: an entry of zero ticks at the end of the previous repetition sits on the same tick)
+                i0 = next((i for i, x in enumerate(tr) if x is e), -1)
+                on = next((x for x in tr[i0 + 1:] if x["kind"] == "on"), None)
                 return (f[1],) if on is None or on["tick"] != f[0] else (f[1], on["ch"])
-            okb = len(cc) == len(firsts) and all(e["ch"] in first_channels(f) and e["d1"] == 0 and placed(e, k, f) for k, (e, f) in enumerate(zip(cc, firsts)))
-            okp = len(pc) == len(firsts) and all(e["ch"] in first_channels(f) and e["d1"] == instrument["nr"] and placed(e, k, f) for k, (e, f) in enumerate(zip(pc, firsts)))
+            okb = len(cc) == len(firsts) and all(e["ch"] in first_channels(e, f) and e["d1"] == 0 and placed(e, k, f) for k, (e, f) in enumerate(zip(cc, firsts)))
+            okp = len(pc) == len(firsts) and all(e["ch"] in first_channels(e, f) and e["d1"] == instrument["nr"] and placed(e, k, f) for k, (e, f) in enumerate(zip(pc, firsts)))
             ctx.check("instrument: a bank select (controller 0) on the first note's channel, not after the first note", okb, w,
                       [("cc0", f[1], f[0]) for f in firsts], [(e["ch"], e["d1"], e["d2"], e["tick"]) for e in cc][:4], mechanism="bank-select")
             ctx.check("instrument: a program change with the instrument number on the first note's channel, not after the first note",
